@@ -36,6 +36,10 @@ pub mod verif_access {
     pub fn udp<C: Catalog>(group: &Arc<ThreadGroup>, server: &Arc<Server<C>>, socket: UdpSocket) -> io::Result<()> {
         run_udp_worker(group, server, socket)
     }
+
+    pub fn listen<C: Catalog + Send + Sync + 'static>(pool: &Arc<ThreadPool>, server: &Arc<Server<C>>, listener: &TcpListener) -> io::Result<()> {
+        run_tcp_listener(pool, server, listener)
+    }
 }
 ''',
     "io/tokio.rs": '''
